@@ -382,7 +382,9 @@ def shard(sh):
                 if mode in ("hold", "trickle"):
                     # only when the rejected message's head is complete on the wire: the server needs nothing more
                     m = msgs[-1]
-                    if s.find(b"\r\n\r\n", m.start) < 0:
+                    if s.find(b"\r\n\r\n", m.start) < 0 or m.body_started:
+                        # (a defect the strict reading finds inside the body may sit where gunicorn reads more leniently and
+                        # simply waits for the rest - what is accepted is C01's subject, here the client must not wait)
                         mode = "halfclose"
                 kind = rng.choice(e2.KINDS)
                 if mode in ("hold", "trickle") and kind == "gthread" and len(msgs) > 1:
